@@ -214,7 +214,28 @@ def coq_obs(o):
     return {"stop": "BStop", "done": "BDone", "noscope": "BNoScope"}[k]
 
 
+def directed_ops(rng, prop, kind):
+    """multi-step scenarios around closing: re-borrowing, sending after close, nested scopes"""
+    t = rng.randrange(6)
+    j = rng.randrange(1, 3)
+    if prop == "C07" or t < 2:
+        if t % 3 == 0:
+            return [("borrow", "U"), ("next", 0)] * 1 + [("close", 0, rng.choice(["direct", "iter", "aiter"])), ("send", 0), ("next", 0), ("nextu",)]
+        if t % 3 == 1:
+            return [("borrow", "U"), ("borrow", 0), ("next", 1), ("close", 0, "direct"), ("next", 1), ("send", 1), ("nextu",)]
+        return [("borrow", "U"), ("tool", 0, j, rng.randrange(100)), ("next", 0), ("send", 0), ("borrow", 0), ("next", 1), ("nextu",)]
+    if t == 2:
+        return [("enter", "U"), ("enter", 0), ("next", 1), ("exit", 1, "normal"), ("send", 1), ("next", 1), ("next", 0), ("exit", 0, "normal"), ("next", 0), ("send", 0)]
+    if t == 3:
+        return [("borrow", "U"), ("enter", 0), ("next", 1), ("exit", 0, rng.choice(["normal", "exception", "cancel"])), ("next", 0), ("next", 1), ("nextu",)]
+    if t == 4:
+        return [("enter", "U"), ("tool", 0, j, rng.randrange(100)), ("tool", 0, j, rng.randrange(100)), ("close", 0, "direct"), ("next", 0), ("exit", 0, "cancel"), ("next", 0), ("nextu",)]
+    return [("enter", "U"), ("enter", 0), ("enter", 1), ("exit", 2, "normal"), ("next", 2), ("exit", 1, "exception"), ("next", 0), ("exit", 0, "normal"), ("send", 2), ("nextu",)]
+
+
 def gen_ops(rng, prop, kind):
+    if rng.random() < 0.25 and (prop == "C07" or caps(kind)[0]):
+        return directed_ops(rng, prop, kind)
     ops = []
     nh = 0
     nsc = 0
@@ -262,6 +283,51 @@ def check_predicates(prop, kind, items, ops, obs, closed, left):
         return "order", "delivered %r is not a prefix of %r" % (delivered, items)
     if len(delivered) + left != len(items):
         return "lost-items", "delivered %d + left %d != %d" % (len(delivered), left, len(items))
+    # after a handle is closed (directly, through iter(), by a tool that closes its input, or by leaving its scope)
+    # it yields nothing more; a handle borrowed from it ends as well; a scope closes the iterator it was given
+    parent, scoped, closed_h, scope_of = {}, {}, set(), []
+    u_closed = False
+    nh = 0
+    for op, o in builtins.zip(ops, obs):
+        k = op[0]
+        if k == "borrow":
+            parent[nh], scoped[nh] = op[1], False
+            nh += 1
+        elif k == "enter":
+            if o[0] == "new":
+                parent[nh], scoped[nh] = op[1], True
+                scope_of.append((nh, op[1]))
+                nh += 1
+            else:
+                scope_of.append((None, op[1]))
+        elif k in ("close", "tool"):
+            if not scoped.get(op[1], False):
+                closed_h.add(op[1])
+        elif k == "exit":
+            if op[1] < len(scope_of):
+                h, p = scope_of[op[1]]
+                if h is not None:
+                    closed_h.add(h)
+                    if p == "U":
+                        u_closed = True
+                    elif not scoped.get(p, False):
+                        closed_h.add(p)
+        elif k in ("next", "send"):
+            h = op[1]
+            dead = h in closed_h
+            if k == "next":
+                q = h
+                while q != "U" and q is not None:
+                    if q in closed_h:
+                        dead = True
+                    q = parent.get(q)
+                if q == "U" and u_closed:
+                    dead = True
+            if dead and o[0] == "item":
+                return "closed-handle-yields", "%s on handle %d yielded %r although it (or what it was borrowed from) had been closed" % (k, h, o[1])
+        elif k == "nextu":
+            if u_closed and o[0] == "item":
+                return "closed-underlying-yields", "the underlying iterator yielded after the scope closed it"
     exits_on_u = 0
     entered = []
     for op in ops:
